@@ -278,6 +278,93 @@ def stage_inputs(p, acc=None):
     return acc
 
 
+def keyed_case(rng):
+    """`ds[key]` applies the functions only to the examples that make up that one result, once each: keyed
+    sources below chains of key-forwarding stages (map, lazy filter, catch, concatenate, intersperse, slice)"""
+    common.gc_point()
+    fails = []
+    n = rng.randint(1, 5)
+    desc = []
+
+    def build(log):
+        r = random.Random(seed)
+        sid = [0]
+
+        def fn(c):
+            sid[0] += 1
+            me = sid[0]
+
+            def f(x):
+                log.append((me, x))
+                return x + c
+            return f
+
+        def pred(m):
+            sid[0] += 1
+            me = sid[0]
+
+            def g(x):
+                log.append((me, x))
+                return x % m != 0
+            return g
+        ds = lazy_dataset.new({f'k{j}': 7 * j + 1 for j in range(n)}).map(fn(100))
+        del desc[:]
+        for _ in range(r.randint(1, 3)):
+            k = r.choice(['map', 'filter', 'catch', 'concat', 'intersperse', 'slice'])
+            desc.append(k)
+            if k == 'map':
+                ds = ds.map(fn(r.randint(1, 9) * 1000))
+            elif k == 'filter':
+                ds = ds.filter(pred(r.choice([2, 3])))
+            elif k == 'catch':
+                ds = ds.catch()
+            elif k == 'concat':
+                ds = ds.concatenate(lazy_dataset.new({'x0': 5, 'x1': 6}).map(fn(50)))
+            elif k == 'intersperse':
+                try:
+                    len(ds)
+                except Exception:  # noqa
+                    continue
+                if len(ds):
+                    ds = ds.intersperse(lazy_dataset.new({'y0': 3}).map(fn(70)))
+            else:
+                try:
+                    m = len(ds)
+                except Exception:  # noqa
+                    continue
+                ds = ds[[j for j in range(m) if r.random() < 0.7]]
+        return ds
+    seed = rng.randrange(1 << 30)
+    with warnings.catch_warnings():
+        warnings.simplefilter('ignore')
+        log = []
+        try:
+            ds = build(log)
+            if log:
+                fails.append(('calls_at_construction', {'stages': list(desc), 'n': len(log)}))
+            chunks, mark = {}, 0
+            for k, v in ds.items():
+                chunks[k] = (list(log[mark:]), v)
+                mark = len(log)
+        except Exception:  # noqa  (a chain without keyed iteration)
+            return fails
+        for k, (clog, v) in chunks.items():
+            log2 = []
+            ds2 = build(log2)
+            r = outcome(lambda: ds2[k])
+            if r != {'ok': canon(v)}:
+                continue          # (what ds[key] returns is C03's subject)
+            need = list(clog)
+            for c in log2:
+                if c in need:
+                    need.remove(c)
+                else:
+                    fails.append(('getkey_extra_call', {'stages': list(desc), 'n': n, 'key': k, 'calls_for_this_key': log2,
+                                                        'calls_of_the_iteration_step': clog}))
+                    break
+    return fails
+
+
 def is_idxable(p):
     if p['op'] in ('filter', 'unbatch', 'localShuffle', 'catch', 'reshuffle'):
         return False
@@ -350,6 +437,9 @@ def run(rep):
     if not EXTENDED:
         cases = [p for p in cases if not ({'catch', 'reshuffle', 'cache', 'tile', 'intersperse'} & set(ops_of(p)))]
     results = [run_case(p) for p in cases]
+    keyed_fails = []
+    for _ in range(150 if rep.tier == 'quick' else 3000):
+        keyed_fails += keyed_case(rng)
     reqs = [{'fam': 'trace', 'p': p, 'gets': [g[0] for g in r['gets']]} for p, r in zip(cases, results)]
     replies = model.ask(reqs)
     disagree, fails = [], []
@@ -365,6 +455,7 @@ def run(rep):
             disagree.append((p, r, rp))
         for cl, det in oracle(p, r):
             fails.append((cl, det, p))
+    fails += [(cl, det, {'keyed_chain': det.get('stages')}) for cl, det in keyed_fails]
     seen = set()
     for cl, det, p in fails:
         if cl not in seen and len(rep.violations) < 4:
